@@ -35,3 +35,7 @@ Inductive step := St_thread_list_stream | St_mappings | St_app_memory | St_memor
 Inductive prot := P_PAGE_NOACCESS | P_PAGE_READONLY | P_PAGE_READWRITE | P_PAGE_WRITECOPY | P_PAGE_EXECUTE
   | P_PAGE_EXECUTE_READ | P_PAGE_EXECUTE_READWRITE | P_PAGE_EXECUTE_WRITECOPY.
 Inductive failpoint := FP_StopProcess | FP_FillMissingAuxvInfo | FP_ThreadName | FP_SuspendThreads | FP_CpuInfoFileOpen.
+
+(* memory-writer operations as they appear in the source of the functions that build streams *)
+Inductive memop := Op_alloc_with_val | Op_alloc | Op_alloc_array | Op_alloc_from_array | Op_alloc_from_iter | Op_write_bytes
+  | Op_set_value_at | Op_set_value | Op_write_string | Op_write_all | Op_dir_flush.
